@@ -2,7 +2,7 @@
 Every random choice comes from the Random instance passed in (derived from VERIF_SEED)."""
 import ast
 
-NAMES = ['a', 'b', 'c', 'x', 'y', 'foo', 'bar', 'data', 'item', 'value', 'result', 'total', 'handler', 'config_value']
+NAMES = ['a', 'b', 'c', 'x', 'y', 'foo', 'bar', 'data', 'item', 'value', 'result', 'total', 'handler', 'config_value', 'I', 'Q', 'A', 'B']
 BUILTINS = ['len', 'print', 'str', 'int', 'range', 'list', 'ValueError', 'sorted', 'isinstance']
 STRS = ["'hello world'", "'key'", "'a longer string literal'", "b'bytes here'", "''", "'x'"]
 
@@ -44,7 +44,17 @@ class Gen:
         if k < 0.72:
             p = [self.name() for _ in range(r.randint(0, 2))]
             p = list(dict.fromkeys(p))
-            return '(lambda %s: %s)' % (', '.join(p), self.expr(d - 1, pool + p))
+            sig = list(p)
+            u = r.random()
+            if u < 0.15 and len(sig) >= 1:
+                sig.insert(1, '/')
+            if u > 0.75:
+                sig.append('*args')
+                p = p + ['args']
+            if u > 0.88:
+                sig.append('**kwargs')
+                p = p + ['kwargs']
+            return '(lambda %s: %s)' % (', '.join(sig), self.expr(d - 1, pool + p))
         if k < 0.84:
             t = self.name()
             t2 = self.name()
@@ -59,6 +69,11 @@ class Gen:
                 w = self.name()
                 if w != t:
                     cond = ' if (%s := %s)' % (w, self.expr(d - 1, pool + [t]))
+            elif u < 0.62:
+                w = self.name()
+                if w not in (t, t2) and t != t2:
+                    inner = r.choice(['[(%s := %s) for %s in %s]', 'any((%s := %s) > 1 for %s in %s)', '{(%s := %s): 1 for %s in %s}']) % (w, t2, t2, t)
+                    return form % (inner, t, self.expr(d - 1, pool), '')
             return form % (self.expr(d - 1, pool + [t]), t, self.expr(d - 1, pool), cond)
         if k < 0.9:
             return '(%s if %s else %s)' % (self.expr(d - 1, pool), self.expr(d - 1, pool), self.expr(d - 1, pool))
@@ -150,7 +165,8 @@ class Gen:
         if k < 0.55:
             fname = self.name()
             ps, pnames = self.params()
-            inner = {'kind': 'function', 'locals': [], 'params': pnames, 'enclosing': (ctx['locals'] + ctx.get('params', [])) if ctx['kind'] == 'function' else [], 'loop': False}
+            inner = {'kind': 'function', 'locals': [], 'params': pnames, 'loop': False,
+                     'enclosing': (ctx['locals'] + ctx.get('params', []) + ctx.get('enclosing', [])) if ctx['kind'] == 'function' else list(ctx.get('outer_function_locals', []))}
             body = self.suite(d - 1, inner)
             # global/nonlocal declarations must precede uses: move them first
             decl = [l for l in body if l.startswith(('global ', 'nonlocal '))]
@@ -164,7 +180,8 @@ class Gen:
             return deco + [head] + ind(doc + decl + (rest or ['pass']))
         if k < 0.62 and self.allow_class:
             cname = r.choice(['K', 'Widget', 'foo', 'Base'])
-            inner = {'kind': 'class', 'locals': [], 'loop': False}
+            inner = {'kind': 'class', 'locals': [], 'loop': False,
+                     'outer_function_locals': (ctx['locals'] + ctx.get('params', [])) if ctx['kind'] == 'function' else list(ctx.get('outer_function_locals', []))}
             body = self.suite(d - 1, inner)
             ctx['locals'].append(cname)
             bases = r.choice(['', '(object)', '(%s)' % self.name(), '(Base, metaclass=%s)' % self.name()])
@@ -198,8 +215,12 @@ class Gen:
             lines.append("'''module doc'''")
         if self.r.random() < 0.1:
             lines.append('from __future__ import annotations')
-        if self.r.random() < 0.2:
+        if self.r.random() < 0.25:
             lines.append('__all__ = [%s]' % ', '.join(repr(self.name()) for _ in range(self.r.randint(1, 3))))
+            if self.r.random() < 0.5:
+                lines.append('__all__ += [%s]' % ', '.join(repr(self.name()) for _ in range(self.r.randint(1, 2))))
+            if self.r.random() < 0.2:
+                lines.append('__all__: list = __all__ + [%r]' % self.name())
         for _ in range(self.r.randint(2, 6)):
             lines.extend(self.stmt(self.maxdepth, ctx))
         return '\n'.join(lines) + '\n'
@@ -229,6 +250,15 @@ def programs(r, n, depth=3, triggers=False):
 
 
 DIRECTED = [
+    "GRID = [[1, 2], [3, 4]]\ncells = [[(last_cell := value) for value in row] for row in GRID]\nrows = [row for row in GRID if any((biggest := cell) > 3 for cell in row)]\nprint(last_cell, biggest)\n",
+    "def f(rows):\n    found = [[(last_cell := value) for value in row] for row in rows]\n    return found, last_cell\n",
+    "def outer():\n    counter = 0\n    class Registry:\n        counter = 'attribute'\n        class Entry:\n            def bump(self):\n                nonlocal counter\n                counter += 1\n                return counter\n    return Registry.Entry().bump(), counter\n",
+    "def outer(limit):\n    total_value = limit\n    class Holder:\n        def read(self):\n            return total_value\n        def write(self, amount):\n            nonlocal total_value\n            total_value = amount\n    return Holder\n",
+    "def fetch(*, scheme='https', fallback='https', other='https'):\n    return scheme\nclass Client:\n    def get(self, *, mode='binary mode', alt='binary mode', third='binary mode'):\n        return mode\n",
+    "import sys\nclass Slotted:\n    if sys.version_info >= (3, 0):\n        __slots__ = ('first_field', 'second_field', '__weakref__')\n    else:\n        __slots__ = ('first_field',)\n    def names(self):\n        return ['first_field', 'second_field', 'first_field', 'second_field', 'first_field', 'second_field']\n",
+    "__all__ = ['alpha_name']\n__all__ += ['beta_name']\n__all__: list = __all__ + ['gamma_name']\nalpha_name = 1\nbeta_name = 2\ngamma_name = 3\ndelta_name = alpha_name + beta_name + gamma_name\n",
+    "handlers = [lambda *args, **kwargs: (args, kwargs), lambda first, second, /: first + second, lambda value, *rest, flag=None: (value, rest, flag)]\n",
+    "def f():\n    from django.db.models import Q\n    from re import I, M\n    alpha=beta=gamma=delta=epsilon=zeta=eta=theta=iota=kappa=lam=mu=nu=xi=omicron=pi=rho=sigma=1\n    return [alpha,beta,gamma,delta,epsilon,zeta,eta,theta,iota,kappa,lam,mu,nu,xi,omicron,pi,rho,sigma,Q,I,M,alpha,beta,gamma,delta,epsilon,zeta,eta,theta,iota,kappa,lam,mu,nu,xi,omicron,pi,rho,sigma]\n",
     "x = 1\ndef f(x):\n    class C:\n        x = x\n    return C.x\nprint(f(10))\n",
     "def f(a, b=1, *args, c=2, **kwargs):\n    return a + b + c + len(args) + len(kwargs)\nprint(f(1))\n",
     "def outer():\n    total = 0\n    def inner(x):\n        nonlocal total\n        total += x\n        return total\n    return inner\n",
